@@ -634,11 +634,11 @@ func main() {
 	r := gen.NewRand(f.Seed)
 	t0 := time.Now()
 	rn.thresholdParsing(f.Tier != "thorough")
-	rn.dispatch(r.Fork(), f.N(150, 2000))
+	rn.dispatch(r.Fork(), f.N(120, 2000))
 
 	fmt.Fprintf(os.Stderr, "thr+disp %.1fs\n", time.Since(t0).Seconds())
 	g := &gen.PatGen{R: r.Fork()}
-	n := f.N(1500, 30000)
+	n := f.N(1000, 30000)
 	var e2eQs []qspec
 	var e2eHints []string
 	for i := 0; i < n; i++ {
